@@ -1119,15 +1119,17 @@ fn preprocess_command(
 ) -> Result<(), PreprocessError> {
     let command_location = command[0].get_location();
 
+    let skip = !condition_chain.is_active();
+
     // Split the base command name
     let (command_name, command) = match command {
         [PreprocessToken(Token::Id(id), _), rest @ ..] => (id.0.as_str(), rest),
         [PreprocessToken(Token::If, _), rest @ ..] => ("if", rest),
         [PreprocessToken(Token::Else, _), rest @ ..] => ("else", rest),
+        // Only the conditional commands are processed inside a block that is not active
+        _ if skip => return Ok(()),
         _ => return Err(PreprocessError::UnknownCommand(command_location)),
     };
-
-    let skip = !condition_chain.is_active();
 
     match command_name {
         "include" => {
